@@ -19,6 +19,14 @@ jagged   : every truncation pattern of every record (to any length 0..width) on 
            4-text alphabet, with and without header (first record full length when header-less).
 headers  : every header of width <= 3 over {'a', 'A b', '', '1', ' x'} (repeats included) on a fixed data grid.
 edge     : empty input and header-only input for every delimiter / has_header / input kind / width <= 3.
+crlf     : quoted cells with embedded '\\r\\n', lone '\\r', '\\n', mixtures and cells that are only a line break (9 texts),
+           grids 1x1, 1x2, 2x1 over all 9 and 2x2 over 4 (thorough: 5 / 9, plus 1x3, 3x2), record terminators '\\r\\n', '\\n', '\\r',
+           QUOTE_ALL and QUOTE_MINIMAL, with and without header, header cells with line breaks x all delimiters.  The text is
+           written to a file in BINARY mode (exact line endings) and read by path, and read from io.StringIO(text, newline=''):
+           both tables must match the oracle (csv.reader over the text + cell rule) and each other cell by cell.
+short    : EVERY data record shorter than the header: header widths 2..5 (names 'id', 'name', 'comment', '', 'id'), 1..3 records,
+           every pattern of record lengths 0..width-1 (blank lines included; header followed by blank lines only with all
+           three terminators), delimiters x path / StringIO  -> still one column per header cell, None padded.
 """
 import atexit
 import csv
@@ -43,7 +51,9 @@ _tmp = {'path': None}
 
 def tmp_path():
     if _tmp['path'] is None:
-        fd, p = tempfile.mkstemp(prefix='c19_', suffix='.csv')
+        # a memory-backed directory when there is one: thousands of tiny files are written and re-read (30x faster than disk)
+        shm = '/dev/shm' if os.path.isdir('/dev/shm') and os.access('/dev/shm', os.W_OK) else None
+        fd, p = tempfile.mkstemp(prefix='c19_', suffix='.csv', dir=shm)
         os.close(fd)
         _tmp['path'] = p
         atexit.register(lambda: os.path.exists(p) and os.remove(p))
@@ -72,9 +82,9 @@ def kind_of(v):
     return 'none' if v is None else type(v).__name__
 
 
-def render(records, delim):
+def render(records, delim, lineterminator='\r\n', quote_all=False):
     buf = io.StringIO(newline='')
-    w = csv.writer(buf, delimiter=delim)
+    w = csv.writer(buf, delimiter=delim, lineterminator=lineterminator, quoting=csv.QUOTE_ALL if quote_all else csv.QUOTE_MINIMAL)
     for rec in records:
         w.writerow(rec)
     return buf.getvalue()
@@ -91,6 +101,12 @@ def grids(alphabet, nrec, width):
 
 
 def cases(tier, seed):
+    yield from cases_v1(tier, seed)
+    yield from crlf_cases(tier)
+    yield from short_cases(tier)
+
+
+def cases_v1(tier, seed):
     q = tier == 'quick'
     base = {'delim': ',', 'input': 'sio'}
     # -- grids --------------------------------------------------------------------------------
@@ -143,6 +159,114 @@ def cases(tier, seed):
 
 
 # ---------------------------------------------------------------------------------------------
+# carriage returns inside quoted cells: path input (exact bytes on disk) must read like the same text as a stream
+# ---------------------------------------------------------------------------------------------
+CR_CELLS = ['a', 'x\r\ny', 'x\ry', 'x\ny', '\r', '\r\n', 'p\r\n\r\nq', ' 1\r2 ', '7\r']
+CR_CELLS5 = ['a', 'x\r\ny', 'x\ry', '\r', '1\n\r2']
+TERMINATORS = ['\r\n', '\n', '\r']
+
+
+def crlf_cases(tier):
+    q = tier == 'quick'
+    shapes = [(1, 1, CR_CELLS), (1, 2, CR_CELLS), (2, 1, CR_CELLS), (2, 2, CR_CELLS5[:4] if q else CR_CELLS5)]
+    if not q:
+        shapes += [(1, 3, CR_CELLS), (2, 2, CR_CELLS), (3, 2, CR_CELLS5[:4])]
+    for nrec, width, alpha in shapes:
+        for g in grids(alpha, nrec, width):
+            for lt in TERMINATORS:
+                for hh in ((True,) if nrec * width == 4 else (True, False)):        # 2x2: with header only
+                    yield {'op': 'crlf', 'grid': g, 'header': default_header(width) if hh else None, 'delim': ',', 'lt': lt, 'input': 'path+sio'}
+    # header cells with embedded line breaks; other delimiters
+    for hdr in (['h\r\n0', 'h\r1'], ['a\rb', 'a\rb'], ['\r', 'x']):
+        for lt in TERMINATORS:
+            for d in DELIMS:
+                yield {'op': 'crlf', 'grid': [['x\r\ny', '1'], ['2', 'u\rv']], 'header': hdr, 'delim': d, 'lt': lt, 'input': 'path+sio'}
+
+
+# ---------------------------------------------------------------------------------------------
+# EVERY data record shorter than the header (trailing header cells nobody fills; header followed by blank lines only)
+# ---------------------------------------------------------------------------------------------
+SHORT_HEADER = ['id', 'name', 'comment', '', 'id']
+SHORT_FILL = ['1', '', 'abc', ' ', '2.5']
+
+
+def short_cases(tier):
+    q = tier == 'quick'
+    for width in (2, 3, 4, 5):
+        for nrec in (1, 2, 3):
+            if q and width == 5 and nrec == 3:
+                continue
+            for cut in itertools.product(range(0, width), repeat=nrec):          # every record strictly shorter than the header
+                g = [[SHORT_FILL[(r + j) % len(SHORT_FILL)] for j in range(c)] for r, c in enumerate(cut)]
+                blank_only = not any(cut)
+                for d in (DELIMS if (blank_only or not q or width <= 3) else [',', '\t']):
+                    for inp in ('sio', 'path'):
+                        for lt in (TERMINATORS if blank_only else ['\r\n']):
+                            yield {'op': 'grid', 'grid': g, 'header': SHORT_HEADER[:width], 'delim': d, 'input': inp, 'width': width, 'lt': lt,
+                                   'short': True}
+
+
+# ---------------------------------------------------------------------------------------------
+def write_bytes(text):
+    p = tmp_path()
+    with open(p, 'wb') as fh:                 # binary: the line endings on disk are exactly those of `text`
+        fh.write(text.encode('utf-8'))
+    return p
+
+
+def eval_crlf(case):
+    delim, lt = case['delim'], case['lt']
+    header = case['header']
+    has_header = header is not None
+    records = ([header] if has_header else []) + case['grid']
+    fails = []
+    for quote_all in (True, False):
+        text = render(records, delim, lineterminator=lt, quote_all=quote_all)
+        parsed = list(csv.reader(io.StringIO(text, newline=''), delimiter=delim))   # the csv module's reading is the truth
+        if not parsed:
+            continue
+        names = list(parsed[0]) if has_header else [f'col_{i}' for i in range(len(parsed[0]))]
+        grid = parsed[1:] if has_header else parsed
+        width = len(names)
+        if not grid or width == 0 or any(len(rec) > width for rec in grid):
+            continue                              # header-only / no column at all / over-long records: other cases, or not decided
+        want_cols = [[cell_value(rec[j]) if j < len(rec) else None for rec in grid] for j in range(width)]
+        jag = any(len(rec) < width for rec in grid)
+        desc0 = f'{text!r}, has_header={has_header}, delimiter={delim!r}'
+        got = {}
+        for inp in ('path', 'sio'):
+            desc = f'read_csv({desc0}, input={inp}' + (' (file written in binary mode)' if inp == 'path' else '') + ')'
+            try:
+                if inp == 'path':
+                    t = read_csv(write_bytes(text), delimiter=delim, has_header=has_header)
+                else:
+                    t = read_csv(io.StringIO(text, newline=''), delimiter=delim, has_header=has_header)
+            except Exception as e:
+                fails.append(Fail('C19:read_csv:raises' + (':jagged' if jag else ''), f'{desc} raised {type(e).__name__}: {e}', 'a table',
+                                  type(e).__name__))
+                continue
+            got[inp] = t
+            fails += check_table(t, names, grid, width, want_cols, desc, has_header, jag)
+        if len(got) == 2 and all(isinstance(t, Table) for t in got.values()):
+            a, b = got['path'], got['sio']
+            va = (list(a.column_names()), [list(c) for c in a.cols()], [c.schema() for c in a.cols()])
+            vb = (list(b.column_names()), [list(c) for c in b.cols()], [c.schema() for c in b.cols()])
+            if not (same(va[0], vb[0]) and same(va[1], vb[1]) and va[2] == vb[2]):
+                what = 'column names' if not same(va[0], vb[0]) else ('cells' if not same(va[1], vb[1]) else 'dtypes')
+                fails.append(Fail(f'C19:read_csv:path-differs-from-stream:{what.replace(" ", "-")}',
+                                  f'read_csv({desc0}): the table read from a path holding exactly these characters differs in its {what} '
+                                  f'from the table read from io.StringIO(text, newline="")', vb[:2], va[:2]))
+        if fails:
+            break
+    # one Fail per key
+    out, seen = [], set()
+    for f in fails:
+        if f['key'] not in seen:
+            seen.add(f['key'])
+            out.append(f)
+    return out
+
+
 def run_read(text, delim, has_header, inp):
     if inp == 'path':
         p = tmp_path()
@@ -152,61 +276,8 @@ def run_read(text, delim, has_header, inp):
     return read_csv(io.StringIO(text, newline=''), delimiter=delim, has_header=has_header)
 
 
-def evaluate(case):
-    delim, inp = case['delim'], case['input']
-    where = f'delimiter={delim!r}, input={inp}'
-    if case['op'] == 'empty':
-        try:
-            t = run_read('', delim, case['has_header'], inp)
-        except Exception as e:
-            return [Fail('C19:read_csv:empty-input-raises', f'read_csv of empty input ({where}) raised {type(e).__name__}: {e}',
-                         'empty table', type(e).__name__)]
-        if not isinstance(t, Table) or len(t) != 0:
-            return [Fail('C19:read_csv:empty-input-not-empty-table', f'read_csv of empty input ({where})', 'empty table', view(t))]
-        return []
-    if case['op'] == 'header-only':
-        hdr = case['header']
-        text = render([hdr], delim)
-        try:
-            t = run_read(text, delim, True, inp)
-        except Exception as e:
-            return [Fail('C19:read_csv:header-only-raises', f'read_csv({text!r}, {where}) raised {type(e).__name__}: {e}',
-                         'empty table', type(e).__name__)]
-        fails = []
-        if not isinstance(t, Table) or len(t) != 0:
-            fails.append(Fail('C19:read_csv:header-only-not-empty-table', f'read_csv({text!r}, {where})', 'empty table (0 rows)', view(t)))
-        elif len(t.cols()) not in (0, len(hdr)) or (len(t.cols()) == len(hdr) and list(t.column_names()) != hdr):
-            fails.append(Fail('C19:read_csv:header-only-columns', f'read_csv({text!r}, {where}) has columns {t.column_names()!r}', hdr,
-                              t.column_names()))
-        return fails
-
-    # ---- ordinary grid ----------------------------------------------------------------------
-    grid = [[c.replace('<D>', delim) for c in rec] for rec in case['grid']]
-    header = case['header']
-    has_header = header is not None
-    width = case.get('width') or (len(header) if has_header else len(grid[0]))
-    records = ([header] if has_header else []) + grid
-    text = render(records, delim)
-    # what the csv module says the file contains (the statement defers to it for quoting)
-    parsed = list(csv.reader(io.StringIO(text, newline=''), delimiter=delim))
-    if parsed != records:
-        # csv.writer/reader do not round-trip this text: the csv module's reading is the truth
-        records = parsed
-        grid = parsed[1:] if has_header else parsed
-        if has_header:
-            header = parsed[0]
-    names = list(header) if has_header else [f'col_{i}' for i in range(width)]
-    if any(len(rec) > width for rec in grid):
-        return []                                     # records longer than the header: not decided by the statement
-    want_cols = [[cell_value(rec[j]) if j < len(rec) else None for rec in grid] for j in range(width)]
-    jag = any(len(rec) < width for rec in grid)
-    desc = f'read_csv({text!r}, has_header={has_header}, {where})'
-
-    try:
-        t = run_read(text, delim, has_header, inp)
-    except Exception as e:
-        return [Fail('C19:read_csv:raises' + (':jagged' if jag else ''), f'{desc} raised {type(e).__name__}: {e}', 'a table',
-                     type(e).__name__)]
+def check_table(t, names, grid, width, want_cols, desc, has_header, jag):
+    """Compare a table returned by read_csv with the oracle (names, rows, cells, dtypes)."""
     if not isinstance(t, Table):
         return [Fail('C19:read_csv:not-a-table', desc, 'Table', type(t).__name__)]
     fails = []
@@ -241,9 +312,76 @@ def evaluate(case):
     return fails
 
 
+def evaluate(case):
+    if case['op'] == 'crlf':
+        return eval_crlf(case)
+    delim, inp = case['delim'], case['input']
+    where = f'delimiter={delim!r}, input={inp}'
+    if case['op'] == 'empty':
+        try:
+            t = run_read('', delim, case['has_header'], inp)
+        except Exception as e:
+            return [Fail('C19:read_csv:empty-input-raises', f'read_csv of empty input ({where}) raised {type(e).__name__}: {e}',
+                         'empty table', type(e).__name__)]
+        if not isinstance(t, Table) or len(t) != 0:
+            return [Fail('C19:read_csv:empty-input-not-empty-table', f'read_csv of empty input ({where})', 'empty table', view(t))]
+        return []
+    if case['op'] == 'header-only':
+        hdr = case['header']
+        text = render([hdr], delim)
+        try:
+            t = run_read(text, delim, True, inp)
+        except Exception as e:
+            return [Fail('C19:read_csv:header-only-raises', f'read_csv({text!r}, {where}) raised {type(e).__name__}: {e}',
+                         'empty table', type(e).__name__)]
+        fails = []
+        if not isinstance(t, Table) or len(t) != 0:
+            fails.append(Fail('C19:read_csv:header-only-not-empty-table', f'read_csv({text!r}, {where})', 'empty table (0 rows)', view(t)))
+        elif len(t.cols()) not in (0, len(hdr)) or (len(t.cols()) == len(hdr) and list(t.column_names()) != hdr):
+            fails.append(Fail('C19:read_csv:header-only-columns', f'read_csv({text!r}, {where}) has columns {t.column_names()!r}', hdr,
+                              t.column_names()))
+        return fails
+
+    # ---- ordinary grid ----------------------------------------------------------------------
+    grid = [[c.replace('<D>', delim) for c in rec] for rec in case['grid']]
+    header = case['header']
+    has_header = header is not None
+    width = case.get('width') or (len(header) if has_header else len(grid[0]))
+    records = ([header] if has_header else []) + grid
+    text = render(records, delim, lineterminator=case.get('lt', '\r\n'))
+    # what the csv module says the file contains (the statement defers to it for quoting)
+    parsed = list(csv.reader(io.StringIO(text, newline=''), delimiter=delim))
+    if parsed != records:
+        # csv.writer/reader do not round-trip this text: the csv module's reading is the truth
+        records = parsed
+        grid = parsed[1:] if has_header else parsed
+        if has_header:
+            header = parsed[0]
+    names = list(header) if has_header else [f'col_{i}' for i in range(width)]
+    if any(len(rec) > width for rec in grid):
+        return []                                     # records longer than the header: not decided by the statement
+    want_cols = [[cell_value(rec[j]) if j < len(rec) else None for rec in grid] for j in range(width)]
+    jag = any(len(rec) < width for rec in grid)
+    desc = f'read_csv({text!r}, has_header={has_header}, {where})'
+
+    try:
+        t = run_read(text, delim, has_header, inp)
+    except Exception as e:
+        return [Fail('C19:read_csv:raises' + (':jagged' if jag else ''), f'{desc} raised {type(e).__name__}: {e}', 'a table',
+                     type(e).__name__)]
+    return check_table(t, names, grid, width, want_cols, desc, has_header, jag)
+
+
 def nontrivial(case):
+    if case['op'] == 'crlf':
+        brk = tuple(sorted({b for rec in case['grid'] + [case['header'] or []] for c in rec
+                            for b in ('crlf' if '\r\n' in c else None, 'cr' if '\r' in c.replace('\r\n', '') else None,
+                                      'lf' if '\n' in c.replace('\r\n', '') else None) if b}))
+        return ('crlf', brk, case['lt'], case['delim'], case['header'] is None, (len(case['grid']), len(case['grid'][0])))
     if case['op'] != 'grid':
         return (case['op'], case['delim'], case['input'])
+    if case.get('short'):
+        return ('short', tuple(len(r) for r in case['grid']), case['width'], case['delim'], case['input'], case.get('lt'))
     kinds = tuple(sorted({kind_of(cell_value(c)) for rec in case['grid'] for c in rec}))
     quoted = any(('<D>' in c or '"' in c or '\n' in c) for rec in case['grid'] for c in rec)
     jag = tuple(len(r) for r in case['grid']) if case.get('width') else None
@@ -255,7 +393,9 @@ if __name__ == '__main__':
     main('C19', cases, evaluate,
          rule='round trip csv.writer -> read_csv over cell-text grids (exhaustive per shape over the stated alphabet), the full '
               'delimiter x has_header x path/StringIO matrix on grids up to 2x2, every truncation pattern of records (jagged), every '
-              'header over a 5-name alphabet incl. repeats, empty and header-only input; oracle = int/float/str/None rule of the '
+              'header over a 5-name alphabet incl. repeats, empty and header-only input; quoted cells with embedded CRLF / CR / LF read '
+              'from a path (file written in binary mode) and from a newline=\'\' stream, compared with each other and with csv.reader; '
+              'every record-length pattern with ALL records shorter than a 2..5 cell header; oracle = int/float/str/None rule of the '
               'statement + Vector(values).schema(). distinct = (value kinds present, quoting needed, jag pattern, options)',
          bound=lambda tier: {'cell_texts': len(CELLS), 'max_shape': '2x3' if tier == 'quick' else '3x3',
                              'full_alphabet_shapes': ['1x1', '2x1', '1x2', '2x2', '1x3'] + ([] if tier == 'quick' else ['3x1']),
